@@ -17,9 +17,13 @@
 (*                                                                         *)
 (* Choices the property leaves open, taken as the code documents them:      *)
 (*  - a cascading kill spares avatars (they stay, orphaned);                *)
-(*  - an object announced for a handle the session has no region for stays  *)
-(*    in the session-wide index only ("regionless"), a NEW object announced *)
-(*    for such a handle is ignored;                                         *)
+(*  - an object announced for a region that is not tracked (a handle the    *)
+(*    session has no region for, or a region of the session before its      *)
+(*    handshake / after its teardown) stays in the session-wide index only  *)
+(*    ("regionless"), attributed to that region; a NEW object announced for *)
+(*    such a region is ignored;                                             *)
+(*  - when a region of the session is unloaded, tracked or not, everything  *)
+(*    attributed to it is gone from every index;                            *)
 (*  - an update resolves the pending request of its own type only.          *)
 (*                                                                         *)
 (* Environment assumptions of the property are GUARDS (UniqueSlots,         *)
@@ -104,7 +108,7 @@ Init == /\ obj = [f \in FullIDs |-> Absent]
 \* for the new slot is resolved with the object.
 AnnounceOK(kind, f, l, p, r) ==
     /\ kind \in AnnounceKinds
-    /\ r \in tracked \cup Unknown
+    /\ r \in Regions
     /\ kind = "cachedHit" => r \in tracked   \* cached updates for untracked regions are dropped whole
     /\ l # p
     /\ LET o2 == [obj EXCEPT ![f] = [local |-> l, parent |-> p, region |-> r]]
@@ -129,7 +133,7 @@ Announce(kind, f, l, p, r) ==
 TouchKinds == {"terse", "cachedSame", "cachedMiss"}
 TouchOK(kind, r, l) ==
     /\ kind \in TouchKinds
-    /\ r \in tracked \cup Unknown
+    /\ r \in Regions
     /\ kind = "cachedSame" => r \in tracked /\ AtSlot(obj, r, l) # {}
 Touch(kind, r, l) ==
     /\ TouchOK(kind, r, l)
@@ -160,16 +164,20 @@ Kill(r, l) ==
           /\ out' = [killed |-> dead, resolved |-> {}, cancelled |-> gone]
     /\ UNCHANGED tracked
 
-\* RegionHandshake: start tracking the region's objects
+\* RegionHandshake: start tracking the region's objects.  Environment assumption: nothing is
+\* attributed to the region yet (no straggler moved an object into it before its handshake and
+\* is still there).
+TrackOK(r) == r \in Trackable \ tracked /\ InRegion(obj, r) = {}
 Track(r) ==
-    /\ r \in Trackable \ tracked
+    /\ TrackOK(r)
     /\ tracked' = tracked \cup {r}
     /\ out' = NoOut
     /\ UNCHANGED <<obj, pending>>
 
-\* the region goes away: everything of it is unloaded, its requests are cancelled
+\* a region of the session goes away (mark_dead / disconnect), whether its objects were tracked
+\* or not: everything attributed to it is unloaded from every index, its requests are cancelled
 Teardown(r) ==
-    /\ r \in tracked
+    /\ r \in Trackable
     /\ obj' = [f \in FullIDs |-> IF f \in InRegion(obj, r) THEN Absent ELSE obj[f]]
     /\ tracked' = tracked \ {r}
     /\ LET gone == {k \in pending : k[1] = r}
@@ -204,8 +212,12 @@ TypeOK == /\ \A f \in FullIDs : obj[f] = Absent \/
           /\ pending \subseteq (Trackable \X Locals \X ReqTypes)
 \* the guards keep the environment assumptions
 EnvKept == UniqueSlots(obj) /\ NoCycle(obj)
-\* objects exist only in tracked regions or "regionless" in unknown ones
-RegionsKnown == \A f \in LiveIn(obj) : obj[f].region \in tracked \cup Unknown
+\* every object is attributed to a region; a region becomes tracked only while it is empty
+RegionsKnown == \A f \in LiveIn(obj) : obj[f].region \in Regions
+\* unloading a region leaves nothing attributed to it, and touches nothing else
+UnloadComplete == [][\A r \in Trackable : Teardown(r) =>
+                        /\ InRegion(obj', r) = {}
+                        /\ \A f \in FullIDs : obj[f].region # r => obj'[f] = obj[f]]_svars
 \* both directions of the parent/child relation, stated on the derived views
 LinksBothWays == \A f, c \in FullIDs :
                     (c \in Children(obj, tracked, f)) <=> (f \in ParentLink(obj, tracked, c))
@@ -233,6 +245,8 @@ Tags(n, kind, f, r, loc) ==
           THEN {"cachedHit-known-fullid"} ELSE {})
     \cup (IF n = "Kill" /\ AtSlot(obj, r, loc) = {} /\ NamesAsParent(obj, r, loc) \cap Avatars # {}
           THEN {"kill-untracked-parent-of-avatar"} ELSE {})
+    \cup (IF n = "Teardown" /\ r \notin tracked /\ InRegion(obj, r) # {}
+          THEN {"unloads-untracked-region"} ELSE {})
     \cup (IF out'.cancelled # {} THEN {"cancels-requests"} ELSE {})
 
 (********************* observation (binding to the code) *******************)
